@@ -9,6 +9,21 @@
 
 use crate::world;
 
+/// Token handles are scrambled indices into the world's token table: a
+/// combinator bug that reads an uninitialised slot yields garbage (zeros,
+/// small integers, pointer fragments), and garbage must show up as an
+/// *unknown* handle rather than be mistaken for some other child's value.
+const MUL: u32 = 0x9E37_79B1;
+const INV: u32 = 0x0E8B_2F51; // MUL * INV == 1 (mod 2^32)
+const ADD: u32 = 0x7F4A_7C15;
+
+pub fn handle_of(index: usize) -> u32 {
+    (index as u32).wrapping_mul(MUL).wrapping_add(ADD)
+}
+pub fn index_of(handle: u32) -> usize {
+    handle.wrapping_sub(ADD).wrapping_mul(INV) as usize
+}
+
 /// A produced value (plain token or composite). Not `Clone`, not `Copy`.
 #[derive(Debug)]
 pub struct Val {
@@ -93,7 +108,7 @@ impl Shape {
     }
     pub fn show(&self) -> String {
         match self {
-            Shape::T(t) => format!("t{}", t),
+            Shape::T(t) => format!("t{}", index_of(*t)),
             Shape::Unknown(t) => format!("?{:#x}", t),
             Shape::L(v) => format!(
                 "[{}]",
@@ -102,6 +117,21 @@ impl Shape {
             Shape::Ok(s) => format!("Ok({})", s.show()),
             Shape::Err(s) => format!("Err({})", s.show()),
             Shape::P(i, s) => format!("({},{})", i, s.show()),
+        }
+    }
+}
+
+#[cfg(test)]
+mod tests {
+    use super::*;
+    #[test]
+    fn handle_roundtrip() {
+        for i in [0usize, 1, 2, 77, 65_535, 1 << 20] {
+            assert_eq!(index_of(handle_of(i)), i);
+        }
+        // typical garbage is not a valid handle of a small table
+        for g in [0u32, 1, 2, 0xFFFF_FFFF, 0x5555_5555, 0x7F00_0000] {
+            assert!(index_of(g) > 1 << 16, "{:#x}", g);
         }
     }
 }
